@@ -58,6 +58,7 @@ pub static INFO: PropInfo = PropInfo {
         ("hist.keepalive_srv", 200),
         ("hist.keepalive_cli", 200),
         ("hist.payload_srv", 200),
+        ("long.sessions_crossing_2^8_both_directions", 4),
         ("hist.payload_cli", 200),
         ("hist.disconnect_srv", 10),
         ("hist.disconnect_cli", 10),
@@ -79,11 +80,186 @@ pub fn run(ctx: &Ctx, out: &mut Outcome) {
 
 pub fn one_run(ctx: &Ctx, out: &mut Outcome, run_seed: u64) {
     let mut r = Rng::new(run_seed);
+    // (b'') a long session now and then (own random stream): the counters cross 2^8 and, more rarely, 2^16
+    if mix(&[0x10A6, run_seed]) % 24 == 0 {
+        let mut lr = Rng::new(run_seed ^ 0x10A6_5E55);
+        return long_session_run(ctx, out, run_seed, &mut lr);
+    }
     // one tamper execution for every 5 histories (a tamper execution is ~25k presentations)
     match r.below(10) {
         0 | 1 => tamper_run(ctx, out, run_seed, &mut r),
         2 => failover_run(ctx, out, run_seed, &mut r),
         _ => history_run(ctx, out, run_seed, &mut r),
+    }
+}
+
+/// (b'') One honest client and one server over a perfect link, a session of hundreds to 2^16+ sealed datagrams per
+/// direction (payloads of 0..40 bytes interleaved with the keep-alives the endpoints send themselves), so that each
+/// endpoint's counter crosses the points where the sequence number needs another byte on the wire (2^8, 2^16).
+/// Every datagram goes into the nonce ledgers as in the multi-client histories.
+fn long_session_run(ctx: &Ctx, out: &mut Outcome, run_seed: u64, r: &mut Rng) {
+    let mut srv = new_srv(r, 2, 1, false);
+    let protocol = srv.protocol_id;
+    let id = 7000 + r.below(1000);
+    let addr_n = 900 + r.below(50);
+    let addr = client_addr(r, addr_n);
+    let addrs = vec![srv.addrs[0]];
+    let lib = if r.chance(1, 3) { nsim::mint_lib(srv.now.as_secs(), protocol, 600, id, 15, &addrs, None, &srv.key) } else { None };
+    let m = lib.unwrap_or_else(|| nsim::mint(r, srv.now.as_secs(), protocol, 600, id, 15, &addrs, None, &srv.key));
+    let ck = m.token.client_to_server_key;
+    let sk = m.token.server_to_client_key;
+    let mut cli = match Cli::new(srv.now, m, addr) {
+        Ok(c) => c,
+        Err(e) => return out.inconclusive(&format!("C17 long session: client setup: {e}")),
+    };
+    let dt = Duration::from_millis(*r.pick(&[16u64, 50, 100]));
+    let mut table = Table {
+        seen: HashMap::new(),
+        blobs: HashMap::new(),
+        log: Vec::new(),
+        real: HashMap::new(),
+        unverifiable: 0,
+    };
+    let per_dir: u64 = match r.below(8) {
+        0 => 66_000,
+        1 | 2 => r.range(1_000, 3_000),
+        _ => r.range(270, 700),
+    };
+    let burst = if per_dir > 10_000 { r.range(200, 400) } else { r.range(3, 12) };
+    let mut sent = [0u64; 2];
+    let mut fp = crate::rng::Fnv::new();
+    let mut tick = 0u64;
+
+    macro_rules! record {
+        ($server:expr, $b:expr) => {{
+            let b: &Vec<u8> = $b;
+            let server: bool = $server;
+            if b[0] & 0xF != 0 {
+                let key = if server { &sk } else { &ck };
+                match nsim::open(b, protocol, Some(key)) {
+                    Some((seq, pk)) => {
+                        if nsim::wire_sequence(b) != Some(seq) {
+                            return out.inconclusive("C17 long session: prefix sequence differs from the decoder's");
+                        }
+                        for v in [table.enter(out, 0, server, seq, &pk, b, tick), table.enter_real(out, 0, server, seq, protocol, key, b, tick)].into_iter().flatten() {
+                            let (sig, detail, w) = v;
+                            let unlisted = out.violation(
+                                ctx,
+                                &sig,
+                                "an endpoint never seals two different datagrams under the same key with the same sequence number",
+                                detail,
+                                json!({"property": "C17", "engine": ctx.engine, "mode": "long-session", "run_seed": format!("{:#x}", run_seed), "witness": w,
+                                    "params": {"per_direction": per_dir, "dt_ms": dt.as_millis() as u64, "datagrams_so_far": sent}}),
+                            );
+                            if unlisted {
+                                return;
+                            }
+                        }
+                        fp.bytes(&b[..b.len().min(12)]);
+                    }
+                    None if b.len() < 18 => out.count("nonce.unopenable_17_byte_datagram_F15"),
+                    None => {
+                        // a datagram the library sealed itself and cannot open again: the ledger has nothing to key it by except
+                        // what the wire announces; if that collides with an earlier datagram it is a reuse, otherwise unverifiable
+                        table.unverifiable += 1;
+                    }
+                }
+            }
+        }};
+    }
+
+    // handshake over a perfect link, every datagram recorded
+    let mut connected = false;
+    for _ in 0..200 {
+        tick += 1;
+        srv.update(dt);
+        if let Some((b, to)) = cli.update(dt) {
+            record!(false, &b);
+            if srv.addrs.contains(&to) {
+                let res = srv.process(addr, &b);
+                if let Some((_, o)) = res.outgoing() {
+                    let o = o.clone();
+                    record!(true, &o);
+                    cli.process(&o);
+                }
+            }
+        }
+        if let SResult::Send { bytes, .. } = srv.update_client(id) {
+            record!(true, &bytes);
+            cli.process(&bytes);
+        }
+        if cli.c.is_connected() && srv.s.is_client_connected(id) {
+            connected = true;
+            break;
+        }
+    }
+    if !connected {
+        return out.inconclusive("C17 long session: the honest handshake did not complete over a perfect link");
+    }
+    let mut delivered = [0u64; 2];
+    while sent[0] < per_dir || sent[1] < per_dir {
+        tick += 1;
+        srv.update(dt);
+        if let Some((b, _)) = cli.update(dt) {
+            record!(false, &b);
+            sent[0] += 1;
+            let _ = srv.process(addr, &b);
+        }
+        if let SResult::Send { bytes, .. } = srv.update_client(id) {
+            record!(true, &bytes);
+            sent[1] += 1;
+            cli.process(&bytes);
+        }
+        for _ in 0..burst {
+            if sent[0] < per_dir {
+                let n = r.usize_below(41);
+                match cli.payload(&r.bytes(n)) {
+                    Ok((_, b)) => {
+                        record!(false, &b);
+                        sent[0] += 1;
+                        if matches!(srv.process(addr, &b), SResult::Payload { .. }) {
+                            delivered[0] += 1;
+                        }
+                    }
+                    Err(e) => return out.inconclusive(&format!("C17 long session: client payload: {e}")),
+                }
+            }
+            if sent[1] < per_dir {
+                let n = r.usize_below(41);
+                match srv.payload_for(id, &r.bytes(n)) {
+                    Ok((_, b)) => {
+                        record!(true, &b);
+                        sent[1] += 1;
+                        if cli.process(&b).is_some() {
+                            delivered[1] += 1;
+                        }
+                    }
+                    Err(e) => return out.inconclusive(&format!("C17 long session: server payload: {e}")),
+                }
+            }
+        }
+        if !cli.c.is_connected() || !srv.s.is_client_connected(id) {
+            out.count("long.session_ended_early");
+            break;
+        }
+    }
+    if table.unverifiable > 0 {
+        return out.inconclusive(&format!("C17 long session: {} datagrams the endpoints sealed do not open under the session keys: the nonce ledger cannot vouch for them", table.unverifiable));
+    }
+    out.count("long.sessions");
+    out.add("long.datagrams", sent[0] + sent[1]);
+    out.add("long.payloads_delivered", delivered[0] + delivered[1]);
+    if sent[0] > 256 && sent[1] > 256 {
+        out.count("long.sessions_crossing_2^8_both_directions");
+    }
+    if sent[0] > 65_536 && sent[1] > 65_536 {
+        out.count("long.sessions_crossing_2^16_both_directions");
+    }
+    out.add("nonce.keys", table.seen.len() as u64);
+    out.eval(mix(&[0x1e, fp.finish()]), true);
+    if out.samples.len() < out.max_samples {
+        out.sample(json!({"mode": "long-session", "run_seed": format!("{:#x}", run_seed), "datagrams_client": sent[0], "datagrams_server": sent[1], "dt_ms": dt.as_millis() as u64,
+            "entries": table.seen.values().map(|m| m.len()).sum::<usize>()}));
     }
 }
 
